@@ -1,4 +1,6 @@
 SPECIFICATION TraceSpec
-CONSTANT Repaired = TRUE
+CONSTANTS
+  Repaired = TRUE
+  RepairedSI = TRUE
 POSTCONDITION TraceAccepted
 CHECK_DEADLOCK FALSE
